@@ -65,6 +65,9 @@ func GenC(t *rapid.T) CCase {
 	if core.Thorough() {
 		g = rapid.IntRange(8, 64).Draw(t, "goroutines-thorough")
 	}
+	// one scenario in four sends nearly everything on the link-level path (replies leave as frames on
+	// the interface the request arrived on, and the requests arrive on different ones)
+	l2Heavy := rapid.IntRange(0, 3).Draw(t, "l2-heavy") == 0
 	for i := 0; i < g; i++ {
 		n := rapid.IntRange(3, 12).Draw(t, "script-len")
 		var s []Send
@@ -77,7 +80,7 @@ func GenC(t *rapid.T) CCase {
 			if rapid.IntRange(0, 7).Draw(t, "bad") == 0 {
 				snd.Bad = rapid.IntRange(1, 3).Draw(t, "bad-kind")
 			}
-			snd.L2 = rapid.IntRange(0, 2).Draw(t, "l2") == 0
+			snd.L2 = rapid.IntRange(0, 2).Draw(t, "l2") == 0 || (l2Heavy && rapid.IntRange(0, 7).Draw(t, "l2h") > 0)
 			s = append(s, snd)
 		}
 		c.Scripts = append(c.Scripts, s)
@@ -262,8 +265,16 @@ func ExecC(c CCase) (res core.Result) {
 		case 3:
 			wire[0] = 2
 		}
+		// link-level replies leave on the interface the request arrived on (the listener is unbound):
+		// requests in flight at the same time arrive on different interfaces
+		recvIdx := recv4
+		if l2 {
+			if all := l2List(); len(all) > 0 {
+				recvIdx = all[int(xid)%len(all)].Index
+			}
+		}
 		enter()
-		sent, pan := feed4(cap4, wire, &ipv4.ControlMessage{IfIndex: recv4}, &net.UDPAddr{IP: net.IPv4(10, 10, 10, 254), Port: 67})
+		sent, pan := feed4(cap4, wire, &ipv4.ControlMessage{IfIndex: recvIdx}, &net.UDPAddr{IP: net.IPv4(10, 10, 10, 254), Port: 67})
 		inflight.Add(-1)
 		if pan != nil {
 			report(core.Violate("C16/panic", "HandleMsg4 panicked under concurrent load: %v", pan))
@@ -287,6 +298,10 @@ func ExecC(c CCase) (res core.Result) {
 				return
 			}
 			if l2 {
+				if sent[0].L2IfIndex != recvIdx {
+					report(core.Violate("C16/cross-talk", "the frame answering xid %#x of %v, which arrived on interface %d, left on interface %d (%s): in every one-at-a-time order it leaves where the request came in", xid, net.HardwareAddr(mac), recvIdx, sent[0].L2IfIndex, sent[0].L2IfName))
+					return
+				}
 				f, ok := decodeFrame(sent[0].Frame)
 				if !ok || !bytes.Equal(f.dstMAC, mac) {
 					report(core.Violate("C16/cross-talk", "the frame answering xid %#x of %v is addressed to %v: frames were mixed up", xid, net.HardwareAddr(mac), f.dstMAC))
